@@ -59,7 +59,9 @@ ASSUMPTIONS = ["BNode() ids (uuid4) differ from each other and from every id alr
                "caller-requested sharing / naming (bnode_context=, one N-Quads parser object used again, preserve_bnode_ids=True, "
                "skolemize=True) replaces the merge by exactly what was asked for (Lean: caller_shared_context_shares_exactly, "
                "preserve_bnode_ids_is_verbatim, skolemize_no_blank_nodes); a bnode_context dict starts empty",
-               "N3: labels are not used inside formulae (N3 scopes _:x per formula); no variables / @forAll"]
+               "N3 gives every formula occurrence { } its own label scope (what the code does, and N3's reading of _:x as an "
+               "existential of the formula): the oracle makes one node per (document, formula occurrence, label); "
+               "no variables / @forAll"]
 TRUSTED = ["harness/c12.py generators, harness/c12docs.py document writers (text is trusted to mean the abstract document)",
            "harness/c12.py canonical labelling (cross-checked on every case against harness/isoutil.iso)",
            "lean/RV/C12/Drive.lean line protocol"]
@@ -280,8 +282,17 @@ def _gen_doc(rng, sink, idx, pool, earlier, init_bn, share=0.3, ctxcase=False):
             f = "a%d" % nxt_anon[0]
             nxt_anon[0] += 1
             quads.append([f, pred(), obj(), g] if rng.random() < 0.5 else [subj(), pred(), f, g])
-            for _k in range(rng.randint(1, 2)):
-                quads.append(["i%d" % rng.choice(SUBJ_I), pred(), ground(), f])
+            # (round g) labels inside the formula: N3 gives a formula its own label scope — the same `_:x` inside,
+            # outside and in another formula are different nodes; inside one formula it is one node
+            inlab = rng.random() < 0.6
+
+            def isubj():
+                return lab() if inlab and rng.random() < 0.6 else "i%d" % rng.choice(SUBJ_I)
+
+            def iobj():
+                return lab() if inlab and rng.random() < 0.4 else ground()
+            for _k in range(rng.randint(1, 2) + (1 if inlab else 0)):
+                quads.append([isubj(), pred(), iobj(), f])
             if rng.random() < 0.25:          # a [] inside the formula
                 a = "a%d" % nxt_anon[0]
                 nxt_anon[0] += 1
@@ -289,8 +300,8 @@ def _gen_doc(rng, sink, idx, pool, earlier, init_bn, share=0.3, ctxcase=False):
             if rng.random() < 0.3:           # a nested formula, last
                 f2 = "a%d" % nxt_anon[0]
                 nxt_anon[0] += 1
-                quads.append(["i%d" % rng.choice(SUBJ_I), pred(), f2, f])
-                quads.append(["i%d" % rng.choice(SUBJ_I), pred(), ground(), f2])
+                quads.append([isubj(), pred(), f2, f])
+                quads.append([isubj(), pred(), iobj(), f2])
             continue
         if anon_ok and fmt in N3_FAMILY + ["xml", "json-ld"] and rng.random() < (0.3 if counting else 0.1):
             # a collection  s p ( x1 … xn )  =  n anonymous cells with rdf:first / rdf:rest
@@ -851,11 +862,16 @@ def run_impl(case):
         where = DEFAULT if into is None else into
         scope = ("ctx", opts["ctx"]) if "ctx" in opts else ("inst", opts["inst"]) if "inst" in opts else None
         for q in cq:
+            # N3: a label written inside a formula belongs to that formula occurrence (its own scope)
+            fscope = q[3] if fmt == "n3" and q[3] is not None and q[3][0] == "a" else None
+
             def m(t):
                 if t[0] == "i":
                     return URIRef(t[1])
                 if t[0] == "l":
                     return Literal(t[1], lang=t[3], datatype=URIRef(t[2]) if t[2] else None)
+                if t[0] == "n" and fscope is not None:
+                    return fresh.setdefault((t, fscope), BNode("M%dxF%dn%s" % (idx, fscope[1], t[1])))
                 if t[0] == "n" and opts.get("sk"):
                     return URIRef(GENID + t[1])
                 if t[0] == "n" and opts.get("pre"):
@@ -914,11 +930,15 @@ def run_impl(case):
         b1 = {x for q in res[1] for x in q if isinstance(x, BNode)}
         alone, fr = set(), {}
         for q in cq:        # the document merged into nothing
+            fscope = q[3] if doc["fmt"] == "n3" and q[3] is not None and q[3][0] == "a" else None
+
             def m1(t):
                 if t[0] == "i":
                     return URIRef(t[1])
                 if t[0] == "l":
                     return _norm(Literal(t[1], lang=t[3], datatype=URIRef(t[2]) if t[2] else None))
+                if t[0] == "n" and fscope is not None:
+                    return fr.setdefault((t, fscope), BNode("FF%dn%s" % (fscope[1], t[1])))
                 return fr.setdefault(t, BNode("F%s%s" % (t[0], t[1])))
             if _eff_opts(doc).get("nogen") and q[1][0] == "n":
                 continue
@@ -968,6 +988,20 @@ def run_impl(case):
             stats["axis.rdf_type_statements"] = stats.get("axis.rdf_type_statements", 0) + 1
         if _has_formula(d["quads"]):
             stats["formula_docs"] = stats.get("formula_docs", 0) + 1
+            inner = {t for q in d["quads"] if q[3].startswith("a") for t in q[:3] if t[0] in "nr"}
+            outer = {t for q in d["quads"] if not q[3].startswith("a") for t in q[:3] if t[0] in "nr"}
+            if inner:
+                stats["formula_docs_with_label_inside"] = stats.get("formula_docs_with_label_inside", 0) + 1
+            if inner & outer:
+                stats["formula_label_inside_and_outside"] = stats.get("formula_label_inside_and_outside", 0) + 1
+            per = {}
+            for q in d["quads"]:
+                if q[3].startswith("a"):
+                    for t in q[:3]:
+                        if t[0] in "nr":
+                            per.setdefault(t, set()).add(q[3])
+            if any(len(v) > 1 for v in per.values()):
+                stats["formula_label_in_two_formulae"] = stats.get("formula_label_in_two_formulae", 0) + 1
         if any(t == "n%d" % EMPTY for q in d["quads"] for t in q):
             stats["empty_id_docs"] = stats.get("empty_id_docs", 0) + 1
         if any(q[1][0] in "nr" for q in d["quads"]):
@@ -1078,8 +1112,7 @@ def model_lines(case):
         if "inst" in o:
             words.append("inst=%d" % o["inst"])
         lines.append(" ".join(["doc", doc["fmt"], into] + words))
-        for q in doc["quads"]:
-            lines.append("q " + " ".join(_model_term_doc(case, idx, t) for t in q))
+        lines += _stmt_lines(case, idx, doc)
         lines.append("end")
         lines.append("obs")
         if "ctx" in o:
@@ -1087,11 +1120,34 @@ def model_lines(case):
     return lines
 
 
+def _stmt_lines(case, idx, doc):
+    """the statements of the document; N3: with the `{` / `}` events of the recursive descent around the statements of a
+    formula (= the consecutive statements whose graph is the formula's anonymous node; nested formulae nest)"""
+    lines, stack = [], []
+    for q in doc["quads"]:
+        if doc["fmt"] == "n3":
+            g = q[3]
+            if g.startswith("a"):
+                while stack and g in stack and stack[-1] != g:
+                    stack.pop()
+                    lines.append("close")
+                if g not in stack:
+                    stack.append(g)
+                    lines.append("open")
+            else:
+                while stack:
+                    stack.pop()
+                    lines.append("close")
+        lines.append("q " + " ".join(_model_term_doc(case, idx, t) for t in q))
+    lines += ["close"] * len(stack)
+    return lines
+
+
 def select_model_obs(case, out):
     pi = _predict_target(case)
     res, k = [], 1 + len(case["init"]) + (len(_anon_terms(case["docs"][pi])) if pi is not None else 0)
-    for doc in case["docs"]:
-        k += 1 + len(doc["quads"]) + 1
+    for idx, doc in enumerate(case["docs"]):
+        k += 1 + len(_stmt_lines(case, idx, doc)) + 1
         line = out[k]
         k += 1
         quads = set()
